@@ -76,7 +76,7 @@ def kernel_batch(batch):
 
 # ---------------------------------------------------------------- (b) real runs
 KINDS = {"pyexc": '@s = int(#a)', "argtype": '@s = add(#a, 1)', "rule": '@s = substring(#b, int(#n))',
-         "nested": 'yes() -> @t = add(#a, 2)', "rhs": '@q = subtract(int(#a), 1)', "lasts": 'last.nocontrib() -> @s = int("zz")'}
+         "nested": 'yes() -> @t = add(#a, 2)', "rhs": '@q = subtract(int(#a), 1)', "lasts": 'last.nocontrib() -> @s = int("zz")', "skipafter": '@s = int(#a) skip() yes()'}
 
 
 def run_impl(job):
@@ -131,6 +131,16 @@ def expected(kind, pol, vm, offending):
         return {"exc": None, "lines": [str(i) for i in upto if i not in offending], "error_lines": [first] if C else [], "valid": not F, "printed": P, "seen": upto}
     return {"exc": None, "lines": [str(i) for i in range(1, 5) if i not in offending], "error_lines": sorted(offending) if C else [], "valid": not F, "printed": P,
             "seen": [1, 2, 3, 4]}
+
+
+_expected = expected
+
+
+def expected(kind, pol, vm, offending):  # noqa: F811
+    e = _expected(kind, pol, vm, offending)
+    if kind == "skipafter" and e["lines"] is not None:
+        e["lines"] = []          # a skip() after the offending component: no line matches; the error is handled all the same
+    return e
 
 
 def judge(o, e):
@@ -231,7 +241,7 @@ def run(ctx):
     ctx.coverage.update({
         "evaluations": len(kcases) + len(rjobs), "distinct_nontrivial": len({(j[0], j[1], vm_text(j[2]), tuple(sorted(j[3]))) for j, o in zip(rjobs, rres) if o.get("error_lines") or o["exc"]}),
         "rule": "handler: all 64 policies x all 81 validation-mode comments (raise/print/stop/fail each absent, set, negated) x prior (valid, stopped) states (quick: 1, thorough: 4), real "
-                "ErrorHandler.handle_error on a parsed CsvPath; runs: 6 error kinds (Python exception, argument type, function rule, right of '->', nested, last() on a blank final record) "
+                "ErrorHandler.handle_error on a parsed CsvPath; runs: 7 error kinds (Python exception, argument type, function rule, right of '->', nested, last() on a blank final record, error followed by skip() on the same line) "
                 "x 64 policies x 5 validation modes x offending-line sets {first, second, last, all, middle two} (quick: one set each), real collect() with a TestPrinter. Non-trivial = "
                 "distinct run in which an error was recorded or raised.",
         "samples": [kcase(0), rcase(len(rjobs) // 3)],
